@@ -152,6 +152,51 @@ func nativeValidate(prog *Program, mod, pkg string, results []*HarnessResult, ti
 		return ""
 	}
 	out := nr.run(cases, 6*time.Second)
+	// schedule-dependent counterexamples (goroutines, runtime select): retry natively
+	reproduced := func(v *Violation, nres *nativeResult) bool {
+		if nres == nil {
+			return false
+		}
+		switch v.Kind {
+		case "assert":
+			return nres.Status == "assert" && nres.Label == v.Label
+		case "panic":
+			return nres.Status == "panic" || nres.Status == "crash"
+		case "hang", "deadlock":
+			return nres.Status == "timeout" || (nres.Status == "crash" && strings.Contains(nres.Msg, "out of memory"))
+		}
+		return false
+	}
+	for try := 0; try < 12; try++ {
+		var again []nativeCase
+		for _, r := range results {
+			for i, v := range r.Violations {
+				id := fmt.Sprintf("v|%s|%d", r.Spec.Name, i)
+				if !reproduced(v, out[id]) && v.Kind == "assert" {
+					for k := 0; k < 4; k++ {
+						again = append(again, nativeCase{ID: fmt.Sprintf("%s|t%d.%d", id, try, k), Harness: r.Spec.Name, Nondet: v.Nondet, Tier: tier})
+					}
+				}
+			}
+		}
+		if len(again) == 0 {
+			break
+		}
+		more := nr.run(again, 6*time.Second)
+		for _, r := range results {
+			for i, v := range r.Violations {
+				id := fmt.Sprintf("v|%s|%d", r.Spec.Name, i)
+				if reproduced(v, out[id]) {
+					continue
+				}
+				for k := 0; k < 4; k++ {
+					if nres := more[fmt.Sprintf("%s|t%d.%d", id, try, k)]; reproduced(v, nres) {
+						out[id] = nres
+					}
+				}
+			}
+		}
+	}
 	for _, r := range results {
 		for i, w := range r.Witnesses {
 			nres := out[fmt.Sprintf("w|%s|%d", r.Spec.Name, i)]
@@ -173,15 +218,7 @@ func nativeValidate(prog *Program, mod, pkg string, results []*HarnessResult, ti
 				continue
 			}
 			v.NativeOut = nres.Status + ":" + nres.Label + " " + nres.Msg
-			ok := false
-			switch v.Kind {
-			case "assert":
-				ok = nres.Status == "assert" && nres.Label == v.Label
-			case "panic":
-				ok = nres.Status == "panic" || nres.Status == "crash"
-			case "hang", "deadlock":
-				ok = nres.Status == "timeout"
-			}
+			ok := reproduced(v, nres)
 			if ok {
 				v.Replayed = true
 				r.Confirmed = append(r.Confirmed, v)
